@@ -332,9 +332,38 @@ pub fn run_resp(case: &RespCase) -> RespOut {
             }
             match &case.reads {
                 Reads::Sizes(ns) => {
+                    // one case in four issues its reads through `Read::read_vectored` with two more slices behind
+                    // the one of `n` bytes: the provided method fills the first non-empty slice only, so this is
+                    // `read(n)` — and stays that if the type overrides the method (seed C19-seed9); a case in four
+                    // reads through a `&mut` reborrow / `by_ref()` (the blanket impls forward every method)
+                    let way = (case.segs.len() + ns.len()) % 4;
+                    let mut extra1 = [0u8; 5];
+                    let mut extra2 = [0u8; 16];
                     for (ri, &n) in ns.iter().enumerate() {
                         let before = pauses(&log);
-                        let r = catch_unwind(AssertUnwindSafe(|| resp.read(&mut buf[..n])));
+                        let r = catch_unwind(AssertUnwindSafe(|| {
+                            if way == 1 && n > 0 {
+                                let mut slices = [std::io::IoSliceMut::new(&mut buf[..n]), std::io::IoSliceMut::new(&mut extra1), std::io::IoSliceMut::new(&mut extra2)];
+                                resp.read_vectored(&mut slices)
+                            } else if way == 2 {
+                                std::io::Read::by_ref(&mut resp).read(&mut buf[..n])
+                            } else {
+                                resp.read(&mut buf[..n])
+                            }
+                        }));
+                        // bytes that went into the slices behind the first one were handed out as well
+                        let r = match r {
+                            Ok(Ok(k)) if k > n => {
+                                let mut all = buf[..n].to_vec();
+                                all.extend_from_slice(&extra1[..(k - n).min(5)]);
+                                if k > n + 5 {
+                                    all.extend_from_slice(&extra2[..(k - n - 5).min(16)]);
+                                }
+                                out.events.push(Ev::Ok(all));
+                                continue;
+                            }
+                            r => r,
+                        };
                         if matches!(r, Ok(Ok(_))) && out.ok_read_waited.is_none() && pauses(&log) > before {
                             out.ok_read_waited = Some(ri);
                         }
